@@ -111,6 +111,19 @@ def run_one(seed, tape, opts):
                     v = {"key": "C09.api_error", "clause": "no exception from "
                          "API calls", "detail": repr(x.api_errors)}
                     break
+                for kind in ("welcome", "code", "key", "verifier",
+                             "versions"):
+                    if not x.has(kind):
+                        v = {"key": "C09.event_lost." + kind,
+                             "clause": "no application-visible event is lost "
+                                       "because of a reconnect",
+                             "detail": "%s completed the session but never "
+                                       "got its %r event; events %r" %
+                                       (x.name, kind,
+                                        [k for k, _ in x.events])}
+                        break
+                if v:
+                    break
     rc = ca.reconnect_count(w)
     if rc:
         sim.note("reconnects", rc)
